@@ -175,6 +175,9 @@ class CodecFamily(Family):
                 lines.append("vlenp %s %d" % (hx(enc + tail), rng.below(8)))
                 if len(enc) > 1:
                     lines.append("vlenp %s %d" % (hx(enc[:-1]), rng.below(8)))   # truncated
+                if rng.chance(1, 6):
+                    # the same encoding at the start of a readable region of 2^32 + extra bytes (a size_t that does not fit 32 bits)
+                    lines.append("vlenpbig %s %d" % (hx(enc), rng.pick([0, 1, len(enc) - 1, len(enc), 9, 10, 4096]))); stats.bump("varint_length_packed_4GiB_region")
                 lines.append("dfix64 %s %d" % (hx(v.to_bytes(8, "little")), rng.below(8)))
                 if v < (1 << 32):
                     lines.append("dfix32 %s %d" % (hx(v.to_bytes(4, "little")), rng.below(8)))
@@ -209,6 +212,10 @@ class CodecFamily(Family):
                 d = unhx(t[1]); n = next((j + 1 for j, c in enumerate(d) if c < 128), 0)
                 if real != "n %d" % n:
                     fails.append(("C16", "length_packed(%s) = %s, expected %d" % (t[1], real, n), i))
+            elif t[0] == "vlenpbig":
+                d = unhx(t[1]) + bytes(12); n = next((j + 1 for j, c in enumerate(d) if c < 128), 0)
+                if real != "n %d" % n and real != "nomem":
+                    fails.append(("C16", "length_packed(%s, 2^32+%s bytes available) = %s, expected %d" % (t[1], t[2], real, n), i))
             elif t[0] in ("fix32", "fix64"):
                 w = 4 if t[0] == "fix32" else 8
                 if real != "bytes " + hx(int(t[1]).to_bytes(w, "little")):
@@ -872,6 +879,12 @@ class CorruptFamily(Family):
                 if tgt + 1 < len(frames):
                     # the same lookup after the reader has already served a key from a LATER block
                     script.append("rv.read %d verify=1 first=%s get=%s" % (bid, hx(keys[-1]), hx(keys[before])))
+                if len(frames) >= 2:
+                    # a live iterator standing in ANOTHER (intact) block is moved into the damaged block by seek()
+                    other = rng.pick([t for t in range(len(frames)) if t != tgt])
+                    wkey = keys[min(sum(counts[:other]), len(keys) - 1)]
+                    skey = keys[min(before + rng.below(max(1, counts[tgt])), len(keys) - 1)]
+                    script.append("rv.read %d verify=1 warm=%s seek=%s" % (bid, hx(wkey), hx(skey))); st.bump("corrupt_seek_into_damaged")
             self.meta["muts"].append({"bid": str(bid), "target": "index" if tgt == len(frames) else tgt, "before": before, "kind": kind})
             bid += 1
         return self.canon(vlib.run_script(exe, script))
@@ -904,7 +917,10 @@ class CorruptFamily(Family):
                         fails.append(("C12", "verifying reader on an intact file: " + real, i))
                 elif t[1] in muts:
                     m = muts[t[1]]
-                    if any(a.startswith("get=") for a in t):
+                    if any(a.startswith("seek=") for a in t):
+                        if int(f[1]) != 0 or f[3] != "abort":
+                            fails.append(("C12", "seek() of a live iterator into the damaged block: %s (an entry decoded from that block was returned, or the reader did not stop)" % real, i))
+                    elif any(a.startswith("get=") for a in t):
                         if int(f[1]) != 0 or f[3] != "abort":
                             fails.append(("C12", "get() on a key of the damaged block: %s (an entry decoded from that block was returned, or the reader did not stop)" % real, i))
                     elif m["target"] == "index":
@@ -963,6 +979,16 @@ class CzFamily(Family):
                         stats.bump("cz_len<=64")
                         lines += ["@b cz.gen %s %d %d" % (kind, n, seed + n), "@s cz.c %d %s $b" % (algo, lvl), "?s cz.d %d $s" % algo]
                     yield ("cz:small:%d:%s:%s" % (algo, kind, lvl), lines)
+        # every level an algorithm distinguishes (and a band below / above its range), a few sizes and contents each:
+        # a level-dependent stream property (header bytes, strategy, window) cannot hide between sampled levels
+        ranges = {1: [0], 2: list(range(-3, 12)), 3: [0, 1], 4: list(range(-2, 15)), 5: list(range(-12, 25)) + [-131072, -131073, -100]}
+        for algo, lvls in ranges.items():
+            lines = ["reset"]
+            for lvl in lvls:
+                for kind, n in (("text", 300), ("zero", 70), ("random", 33)) if tier == "quick" else (("text", 300), ("zero", 70), ("random", 33), ("period7", 5000), ("mixed", 1500), ("text", 0)):
+                    stats.bump("cz_every_level_algo_%d" % algo)
+                    lines += ["@b cz.gen %s %d %d" % (kind, n, seed + n), "@s cz.c %d %d $b" % (algo, lvl), "?s cz.d %d $s" % algo]
+            yield ("cz:levels:%d" % algo, lines)
         # structured / random contents at larger sizes, through the model (sizes the line protocol carries comfortably)
         sizes = [100, 127, 128, 255, 256, 1000, 1023, 1024, 4096, 16383, 16384, 65536, 100000, 262144]
         for i in range(budget(tier, 40, 400, mult)):
@@ -1264,7 +1290,9 @@ class ResGen:
             if rng.chance(1, 6):
                 self.emit("res.bad %d" % t); self.tables[t] = "bad"
             else:
-                self.emit("res.table %d %d %d %d" % (t, rng.pick([0, 1, 5, 20, 60]), rng.pick([1, 2, 3]), rng.below(3))); self.tables[t] = "table"
+                codec = rng.pick([0, 0, 1, 2, 2, 3, 4, 5]); vlen = rng.pick([0, 0, 700, 3000]) if codec else 0
+                self.stats.bump("res_table_codec_%d" % codec); self.stats.bump("res_table_redundant_values" if vlen else "res_table_short_values")
+                self.emit("res.table %d %d %d %d %d %d" % (t, rng.pick([0, 1, 5, 20, 60]), rng.pick([1, 2, 3]), rng.below(3), codec, vlen)); self.tables[t] = "table"
         self.emit("res.setfile 0 %s" % ",".join(str(t) for t in range(nt) if rng.chance(2, 3)) or "-")
         if self.lines[-1].endswith(" "):
             self.lines[-1] += "-"
@@ -1318,6 +1346,14 @@ class ResGen:
             srcs = self.sources()
             if srcs:
                 src = rng.pick(srcs); i = self.new_id(); k = rng.pick(["iter", "get", "pfx", "range"])
+                def has_fileset(j, depth=0):
+                    o = self.objs.get(j)
+                    return bool(o) and depth < 8 and (o["k"] == "fileset" or (o["k"] == "merger" and any(has_fileset(d, depth + 1) for d in self.deps.get(j, []))))
+                if self.objs[src]["k"] == "merger" and has_fileset(src):
+                    # a bounded lookup on a merger is NULL when no source has a match, and then its fileset sub-iterators are
+                    # released at once; the ledger machine does not track table contents, so it models only the unbounded
+                    # iterator of such mergers (whose sub-iterators always live as long as it does)
+                    k = "iter"; self.stats.bump("res_iter_merger_over_fileset_unbounded_only")
                 a = "" if k == "iter" else " %d" % rng.below(70) if k != "range" else " %d %d" % (rng.below(40), rng.below(70))
                 self.emit("res.iter %d %d %s%s" % (i, src, k, a)); self.objs[i] = {"k": "iter"}; self.deps[i] = [src]
                 if self.objs[src]["k"] == "fileset":
